@@ -145,6 +145,12 @@ class SimpleOperationExecutor:
             raise FileNotFoundError(
                 'The requested file does not exist: {:s}'.format(filename))
         except IsADirectoryError:
+            if not self.is_dir(filename, created_files):
+                # e.g. an emptied directory created in the previous build,
+                # which is removed in the virtual state of the file system
+                raise FileNotFoundError(
+                    'The requested file does not exist: {:s}'.format(
+                        filename))
             raise IsADirectoryError(
                 'Cannot read a directory: {:s}'.format(filename))
 
